@@ -272,14 +272,16 @@ C06_Handler ==
 ManualAE == Is("handled") /\ Ev.kind = "ae" /\ ~Has("err") /\ Ev.id \in DOMAIN hpre /\ Ev.id \in DOMAIN reqs /\ hpre[Ev.id].manual
 NextLastae ==
   IF Is("scenario") THEN <<>>
-  ELSE IF ManualAE THEN Put(lastae, Ev.to, [id |-> Ev.id, ok |-> Ev.ok, pre |-> hpre[Ev.id].commit, inc |-> Ev.inc,
+  ELSE IF ManualAE THEN Put(lastae, Ev.to, [id |-> Ev.id, ok |-> Ev.ok, pre |-> hpre[Ev.id].commit, inc |-> Ev.inc, term |-> Ev.rterm,
                                            top |-> AEReq.prev + Len(AEReq.entries), lc |-> AEReq.commit])
   ELSE IF (Is("status") \/ Is("crash") \/ Is("restart") \/ Is("stop")) /\ Ev.node \in DOMAIN lastae THEN Del(lastae, Ev.node)
   ELSE IF Is("deliver") /\ Ev.to \in DOMAIN lastae THEN Del(lastae, Ev.to)      \* another call intervened
   ELSE lastae
 
 C06_Commit ==
-  IF ~(Is("status") /\ Ev.node \in DOMAIN lastae /\ lastae[Ev.node].inc = Ev.inc /\ Ev.role = 1) THEN {} ELSE
+  \* (same term: a node that campaigned, led, committed and stepped down again - removed by the
+  \* configuration it committed - between two status reports is in a higher term than its answer was)
+  IF ~(Is("status") /\ Ev.node \in DOMAIN lastae /\ lastae[Ev.node].inc = Ev.inc /\ Ev.role = 1 /\ Ev.term = lastae[Ev.node].term) THEN {} ELSE
     LET a == lastae[Ev.node]
         bound == IF a.ok THEN Max(a.pre, Min(a.lc, a.top)) ELSE a.pre IN
     (IF Ev.commit < a.pre THEN {V("C06", "CommitMovedBackwards", <<a.id, a.pre, Ev.commit>>)} ELSE {})
